@@ -15,6 +15,14 @@ CLAIMS = {
    text="Lean 4 theorems: for every width >= 1, every image whose length is a multiple of it (0 and 1 rows, < 10 columns included) and every strength 1..12 the model of deblock returns a same-length byte image (panic outcome unreachable: every index checked, every subtraction and i16 operation range-checked); the regenerated QUANT_TO_STRENGTH equals Table J.2 (decide over all 32 entries). Model tied to the code by exhaustive correspondence over widths x heights x strengths with overflow checks on.",
    note="Axioms: propext, Classical.choice, Quot.sound. usize additions/multiplications are modelled on unbounded Nat (64-bit target, sizes far below 2^64). Table J.2 is my transcription of the Recommendation.",
    design="DESIGN.md §4 C16", technique="Lean 4 proof (induction over the edge loops) + regenerated-table theorem + correspondence"),
+ "C07": dict(
+   text="Lean 4 theorems over all 2^24 (Y,Cb,Cr) triples: every literal of the kernel re-extracted from the source equals the value derived from the BT.601 constants (nearest integer to the rational coefficient x 2^16, offsets, rounding term, shift, clamp, alpha, byte and lane order); the lane function (with explicit i32 wrap-around) equals the fixed-point specification; each channel is within 1 of the exact rational formula before and after clamping; alpha = 255; seven monotonicity statements; lane/byte layout of the 4-pixel kernel. Model tied to the code by correspondence (thorough: all 2^24 triples).",
+   note="Axioms: propext, Classical.choice, Quot.sound. Little-endian byte interleave only; the OR of shifted channels is modelled under the (proved) guard that each channel is in 0..255. wide::i32x4 lane-wise wrapping semantics trusted.",
+   design="DESIGN.md §4 C07", technique="Lean 4 proof (omega over regenerated literals) + exhaustive correspondence"),
+ "C08": dict(
+   text="Lean 4 model of yuv420_to_rgba (row loop, whole 4-pixel groups, remainder path with its x%4, (x%4)/2, i%16 indexing), tied to the code by correspondence on every width x height of a dense range and checked against the pointwise statement pixel(x,y) = BT.601(luma(x,y), chroma(x/2,y/2)); theorem: an empty picture of any width yields an empty output without panic.",
+   note="PARTIAL: the pointwise layout statement for every width/height (pixel_at, length, no_panic) is so far carried by the correspondence runs and the executable pointwise spec, not by a theorem; proved: empty_ok. Axioms: propext, Quot.sound at most.",
+   design="DESIGN.md §4 C08", technique="Lean 4 model + theorem for the empty case; model/code correspondence over all sizes"),
 }
 
 PENDING = {}
